@@ -47,6 +47,14 @@ def cases_for(pid, tier, seed):
         cases.append({"tree": t, "share": share, "pts": pts})
 
     quick = tier == "quick"
+    if pid == "C17":
+        for t in gen.dedup(gen.d1q() + rnd.sample(gen.over(gen.d1q(), ks=(1, 2, 3, 4)), 500 if quick else 5000) + gen.boundary_universe()[::4]
+                           + gen.random_trees(seed * 11 + 9, 200 if quick else 4000, depth=3)):
+            vs = sorted(J.variables(t))
+            pts = gen.grid(vs, [gen.q(-1), gen.q(0), gen.q(2)])
+            add(t, pts=pts + ([{k: gen.q(1) for k in vs[:-1]}] if vs else []))
+            if J.size(t) <= 7:
+                cases[-1]["early"] = True
     if pid in ("C03", "C04"):
         u2 = gen.over(gen.d1q(), ks=(1, 2, 3, 4, 5, 6),
                       nary3=[(gen.X, gen.Y, gen.C[1]), (gen.C[0], gen.X, gen.Y), (gen.X, gen.X, gen.X), (gen.X, gen.C[0], gen.Y)],
